@@ -91,7 +91,7 @@ def path_specs(strlen):
             for host in D.HOSTS:
                 yield ['ipath', 'Foo', [['k', v]], ns, host]
         for cn in D.NAMES + D.NAMES_UNI + ['CIM_Foo']:
-            for kn in ['K', 'k_1', 'Ünï', 'Name']:
+            for kn in ['K', 'k_1', 'Ünï', 'Name', 'Straße', 'ǅx']:
                 yield ['ipath', cn, [[kn, v]], 'a', 'h']
     # (3) two and three keys (order, case)
     for v1, v2 in itertools.product(REDUCED, repeat=2):
@@ -192,8 +192,9 @@ def paths_agree(p, q, fmt):
             return 'host-case'
     if isinstance(p, CIMClassName):
         return None
-    pk = {k.lower(): (k, v) for k, v in p.keybindings.items()}
-    qk = {k.lower(): (k, v) for k, v in q.keybindings.items()}
+    # key names are compared the way pywbem's NocaseDict compares them (casefold, not lower)
+    pk = {k.casefold(): (k, v) for k, v in p.keybindings.items()}
+    qk = {k.casefold(): (k, v) for k, v in q.keybindings.items()}
     if set(pk) != set(qk):
         return 'keynames'
     for lk in pk:
